@@ -83,13 +83,13 @@ class Recorder:
         if isinstance(obj, (int, str)) or (isinstance(obj, tuple) and all(
                 isinstance(x, (int, str)) for x in obj)):
             return 'V:%r' % (obj,)          # immutable values: identity is not observable
-        if isinstance(obj, VExc):
-            return 'X:' + obj.who
-        if isinstance(obj, VResult):
-            return 'R:' + obj.who
         key = id(obj)
         if key in self._names:
             return self._names[key]
+        if isinstance(obj, VExc):
+            return 'X:%s' % (obj.who,)
+        if isinstance(obj, VResult):
+            return 'R:' + obj.who
         if key not in self._tokens:
             self._keep.append(obj)
             self._tokens[key] = 'O%d:%s' % (len(self._tokens), type(obj).__name__)
@@ -754,11 +754,16 @@ def run_scenario(spec, sampling=False, run_on=True, explicit_shutdown=False,
                         ghost = VJob(g)
                         registry[sp['id']].add(ghost)
                         ghosts.append((registry[sp['id']], ghost))
+            # rerun_first: 'free' (default) = first run unthrottled and without deadlines;
+            # 'w1' = one job at a time, no deadlines; 'asis' = the scenario's own settings
+            # (with a long-lasting ghost, a first run that times out)
+            first_mode = spec.get('rerun_first', 'free')
             for ident, obj in registry.items():
                 if isinstance(obj, PureScheduler):
                     real[ident] = (obj.jobs_window, obj.timeout)
-                    obj.jobs_window = None
-                    obj.timeout = None
+                    if first_mode != 'asis':
+                        obj.jobs_window = 1 if first_mode == 'w1' else None
+                        obj.timeout = None
             with contextlib.redirect_stdout(out):
                 try:
                     top.run()
